@@ -286,6 +286,9 @@ where
 	S: Future<Output = ()> + Unpin,
 	T: StreamExt<Item = Result<Incoming, SokettoError>> + Unpin,
 {
+	#[cfg(jsonrpsee_verif)]
+	use tokio::time::Instant;
+
 	let mut last_active = Instant::now();
 	let inactivity_check = match ping_config {
 		Some(p) => IntervalStream::new(interval_at(tokio::time::Instant::now() + p.ping_interval, p.ping_interval)),
